@@ -77,6 +77,32 @@ def replay_line(line):
                "exc": exc, "exc_swapped": exc, "src": src}
         yield {"op": "sched_replay", "algo": "iso", "followed": ch.ok and ch.k == len(tr["schedule"]),
                "expected": [tr["final"]], "actual": ["true" if r else "false"] if exc == "none" else [exc], "src": src}
+    elif algo == "pc":
+        from . import universe as U
+        from gambatools.pda_algorithms import pda_epsilon_closure, pda_accepts_word, PDAState
+        from gambatools.global_settings import GambaTools
+        P = U.make_pda(["s0", "s1"], "a", "X", [tuple(t) for t in tr["moves"]], "s0", ["s1"], eps="eps")
+        ch = Chooser("pc.pop", tr["schedule"], lambda x, w: x.q == w[0] and list(x.stack) == list(w[1]))
+        default = GambaTools.pda_epsilon_closure_max_iterations
+        GambaTools.pda_epsilon_closure_max_iterations = tr["limit"]
+        _verif.CHOOSER = ch
+        _verif.DETAIL = True
+        try:
+            r, exc = guarded(lambda: pda_epsilon_closure(P, [PDAState("s0", [])]))
+            # the acceptance test of the empty word computes exactly this closure: forced through the same schedule
+            ch2 = Chooser("pc.pop", tr["schedule"], ch.match)
+            _verif.CHOOSER = ch2
+            acc, exc2 = guarded(lambda: pda_accepts_word(P, ""))
+        finally:
+            _verif.CHOOSER = None
+            _verif.DETAIL = False
+            GambaTools.pda_epsilon_closure_max_iterations = default
+        _verif.take()
+        yield {"op": "pda_accepts", "pda": ab.pda(P), "n": 0, "limit": tr["limit"], "limit_after": tr["limit"],
+               "accepted": ab.words([""] if acc else []), "exc": exc2, "src": src}
+        yield {"op": "sched_replay", "algo": "pc", "followed": ch.ok and ch.k == len(tr["schedule"]) and ch2.ok,
+               "expected": sorted([c[0], list(c[1])] for c in tr["final"]),
+               "actual": sorted([c.q, list(c.stack)] for c in (r or [])) if exc == "none" else [exc], "src": src}
     elif algo == "ec":
         Q = sorted({x for e in tr["edges"] for x in e} | set(tr["start"]) | {"s0", "s1", "s2"})
         delta = defaultdict(set)
